@@ -10,7 +10,9 @@ EXTRA_VO = ["Model/C17Run.vo"]
 PROFILES = ["release"]
 RULE = ("harness c17: one record = a HISTORY applied to one operand (fresh view / set_size below capacity / reallocate_limbs / "
         "write_to+read_from with spare writer capacity / header-corrupted stream / grown to max_size / carved out of an unaligned "
-        "scratch window by take_* / view at an 8-byte shifted address / from_data on a short buffer / set_size beyond capacity) followed by ONE observed "
+        "scratch window by take_* / view at an 8-byte shifted address / from_data on a short buffer / set_size beyond capacity / REJECTED read_from of a self-consistent stream describing a larger "
+        "object (each dimension bumped in turn; VecZnx, ScalarZnx, MatZnx, carved GLWE operands, GGLWE and GGSW keys) after which the "
+        "receiver - header as its accessors report it after the Err - is used) followed by ONE observed "
         "operation of the HAL families (vec_znx ring ops, normalise/shift, big ops, dft/idft incl. the in-place consume, svp, vmp) "
         "on 4 backends, n from 1 where the family admits it, 1..3 columns, sizes 1,2,3,5, exact-size scratch window; every operand "
         "and the scratch live in one allocation between guard zones, run twice from two garbage fills; outputs = "
